@@ -562,6 +562,8 @@ class LoopMixin:
         if c.decreases:
             st.snap["$measure"] = self.spec_value(st, c.decreases, fid, st.heap0, st.entry_frame, {}).t
         self.vacuous = not self.feasible(st)
+        if c.at_yield and not self.is_generator(fn):
+            raise Unsupported("the contract has at_yield clauses but the function is no longer a generator")
         if any(self.dec_name(d) == "exclusively" for d in fn.decorator_list) and names:
             # the method runs inside `with self._lock:` of the exclusively wrapper (verified separately): ghost permission held
             self.assumptions.add("threading.Lock: mutual exclusion; @exclusively methods run holding self._lock (wrapper verified under its own contract)")
